@@ -293,7 +293,37 @@ def integrity_check(tier, seed, stats):
     return []
 
 
+def probe_check(tier, seed, stats):
+    import subprocess, os
+    from vlib import HARNESS, LEAN, ENV, sh
+    rc, out = sh(["lake", "build", "traittable"], cwd=LEAN)
+    model = subprocess.run([os.path.join(LEAN, ".lake", "build", "bin", "traittable")], stdout=subprocess.PIPE, text=True, env=ENV).stdout.strip().split("\n")
+    p = subprocess.run([os.path.join(HARNESS, "target", "release", "probes")], stdout=subprocess.PIPE, stderr=subprocess.STDOUT, text=True, env=ENV)
+    rustc = p.stdout.strip().split("\n")
+    stats["evaluations"] += len(rustc)
+    stats["programs"] += 1
+    stats["samples"].append({"probes": rustc[:2] + rustc[-2:]})
+    stats["nontrivial"] |= {l.encode() for l in rustc}
+    if p.returncode != 0 or len(model) != 56 or model != rustc:
+        diff = [f"model: {m} | rustc: {r}" for m, r in zip(model, rustc) if m != r][:6]
+        return [{"kind": "probe", "seed": seed, "failures": diff or [f"probes exited {p.returncode} / table sizes {len(model)} vs {len(rustc)}: {p.stdout[-300:]}"]}]
+    return []
+
+
 PROPS = {
+    "C20": dict(
+        level="proof",
+        lean_targets=["Kanal.Props.C20", "Kanal.Tie", "traittable"],
+        props_files=["Kanal/Props/C20.lean"],
+        leancheck=["Kanal.Props.C20", "Kanal.AutoTrait"],
+        families=lambda tier, seed: [],
+        extra_checks=[probe_check],
+        relevant=lambda d: True,
+        trusted=["std / lock_api auto-trait rules as tabulated in Kanal/AutoTrait.lean (cross-checked by 56 rustc probes every run)",
+                 "extractor's type parser (struct fields -> Ty)"],
+        assumptions=COMMON_ASSUME + ["auto-trait derivation depends on T only through T: Send and T: Sync"],
+        explanation="auto-trait solver model over the extracted struct fields and unsafe impls: for T: Send all handles Send+Sync and futures/stream Send; for T: !Send none; verdict depends on the two bits only; proved failure when the bound is dropped; the model's 56 verdicts are compared with rustc's on every run",
+    ),
     "C04": dict(
         level="proof",
         lean_targets=["Kanal.Props.C04", "Kanal.Tie"],
